@@ -44,7 +44,7 @@ TARGETS = [
     "sigma.validators.core.metadata:DuplicateFilenameValidator",
 ]
 BOUNDS = {
-    "references": "64 detection name subsets x 14 condition forms, 1..2 conditions per rule",
+    "references": "63 detection name subsets x 14 condition forms, 1..2 conditions per rule (quick: second condition from a 4-entry sub-pool; thorough: any)",
     "uniqueness": "4 rules, id from 3 values (+none), title from 2, file name from 2 names x 2 directories",
     "purity/order/exclusions": "4 rules in all 24 orders x 4 validator orders x before/after conversion x 8 exclusion tables; all built-in validators except the two that download MITRE data",
     "validator reuse": "one SigmaValidator (all offline validators, built by from_dict) used for two runs over the 4 rules in all 24 orders, before / after conversion; exclusions for one rule id given in 2 of 5 spellings (lower case, upper case, braces, urn:uuid:, without hyphens)",
@@ -54,6 +54,9 @@ ASSUMPTIONS = ["stub: the validator SET of SigmaValidator is replaced by a list 
 
 NAMES = ["sel", "sel2", "flt", "_x", "nota", "x1"]
 CONDS = ["sel", "1 of them", "all of sel*", "sel and not flt", "1 of *", "1 of _*", "nota or x1", "1 of s* and not flt", "all of zz*", "1 of them and 1 of _x*", "sel or 1 of fl*", "not 1 of x*", "1 of *1 or all of *t*", "sel and 1 of them"]
+
+
+SUB2 = [0, 3, 6, 8]  # second condition of the quick two-condition obligation: sel / sel and not flt / nota or x1 / all of zz*
 
 
 def referenced(formula, acc, dangling):
@@ -108,12 +111,14 @@ def c19a_refs(mask: int, c1: int, c2: int) -> bool:
     """
     pre: 1 <= mask < 64
     pre: 0 <= c1 < len(CONDS)
-    pre: -1 <= c2 < (len(CONDS) if P("TWO", 0) else 0)
+    pre: -1 <= c2 < (len(CONDS) if P("TWO", 0) == 1 else len(SUB2) if P("TWO", 0) == 2 else 0)
     post: _
     """
     m = sel(mask, 64)
     a = sel(c1, len(CONDS))
     b = sel(c2 + 1, len(CONDS) + 1) - 1
+    if b >= 0 and P("TWO", 0) == 2:
+        b = SUB2[b]  # quick tier: second condition from a 4-entry sub-pool
     with concrete_section():
         ok = check_refs(m, a, b)
     return fin(ok)
@@ -326,6 +331,7 @@ def c19c_reuse(perm_i: int, converted: bool, spell: int) -> bool:
 OBLIGATIONS = [
     Ob("c19c_reuse", {}, 600),
     Ob("c19a_refs", {"TWO": 0}, 600),
+    Ob("c19a_refs", {"TWO": 2}, 900),
     Ob("c19a_refs", {"TWO": 1}, 3000, tier="thorough"),
 ] + [Ob("c19b_unique", {"MODE": 0, "I0": i}, 900) for i in range(4)] + [
     Ob("c19b_unique", {"MODE": 1}, 600),
@@ -335,5 +341,6 @@ OBLIGATIONS = [
 SELFCHECKS = [
     ("c19a_refs", {}, (0b000111, 0, -1), True),
     ("c19a_refs", {}, (0b001011, 1, -1), True),
+    ("c19a_refs", {"TWO": 1}, (0b000011, 0, 6), True),
     ("c19c_pure", {}, (0, 0, False, 0), True),
 ]
